@@ -4,3 +4,4 @@ import Driver.FilterEng
 import Driver.CacheEng
 import Driver.TreeEng
 import Driver.CtrlEng
+import Driver.ListerEng
